@@ -1,6 +1,6 @@
 (* C08 — level limits bound every point a grid ever contains or proposes.  Statements only. *)
 From TV Require Import Common.Prelude Model.IndexSets Model.RuleLocal Model.Selection Model.LowerSets.
-From TV Require Import Proofs.IndexSetsProofs Proofs.SelectionProofs Proofs.LowerSetsProofs.
+From TV Require Import Proofs.IndexSetsProofs Proofs.SelectionProofs Proofs.LowerSetsProofs Proofs.RuleLocalProofs.
 Local Open Scope Z_scope.
 
 (* the breadth-first generation used by every tensor selection only produces indexes that satisfy its criterion *)
@@ -30,6 +30,12 @@ Theorem c08_children_within_limits : forall d r limits pts (flag : idx -> bool) 
                 (nth dir limits (-1) = -1 \/ getLevel r (nth dir p 0) <= nth dir limits (-1)).
 Proof. exact classic_within_limits. Qed.
 
+(* refinement descends exactly one level per step in the refined direction (all binary local rules, every point):
+   so a point that respects the limits can only produce children at most one level above, which the limit test filters *)
+Theorem c08_child_is_one_level_down : forall r p k, binary_rule r -> 0 <= p -> (k = 0 \/ k = 1) ->
+  getKid r p k <> -1 -> getLevel r (getKid r p k) = getLevel r p + 1.
+Proof. exact kid_level. Qed.
+
 (* the growth loop of anisotropic refinement returns as soon as all indexes allowed by the limits are present:
    if at some depth K the box is full, the loop started at any depth k <= K terminates within K - k + 1 rounds *)
 Theorem c08_saturated_terminates : forall (select : nat -> list idx) pts limits min_growth K,
@@ -56,5 +62,6 @@ Print Assumptions c08_select_within_limits.
 Print Assumptions c08_within_limits_pointwise.
 Print Assumptions c08_minus_one_unrestricted.
 Print Assumptions c08_children_within_limits.
+Print Assumptions c08_child_is_one_level_down.
 Print Assumptions c08_saturated_terminates.
 Print Assumptions c08_growth_loop_result.
